@@ -191,13 +191,17 @@ class Value(ABC, float):
         """Less than comparison operator"""
 
         if isinstance(other, Value):
-            return float(self) < other.to(self.units)
+            return float(self) < float(other.to(self.units))
 
         return float(self) < other
 
     def __gt__(self, other: Any) -> bool:
         """Greater than comparison operator"""
-        return not self.__lt__(other)
+
+        if isinstance(other, Value):
+            return float(self) > float(other.to(self.units))
+
+        return float(self) > other
 
     def __le__(self, other: Any) -> bool:
         """Greater than or equal to comparison operator"""
@@ -238,7 +242,13 @@ class Value(ABC, float):
         return self.__add__(other)
 
     def __sub__(self, other) -> TypeValue:
-        return self.__add__(-other)
+        """Subtract another value from this one"""
+        if isinstance(other, np.ndarray):
+            return float(self) - other
+
+        return self._like_self_from_float(
+            float(self) - float(self._other_same_units(other))
+        )
 
     def __neg__(self) -> TypeValue:
         """Unary negation operation"""
